@@ -9,7 +9,7 @@ META = {
     'rule': 'seeded random PDAs (1-3 states, <=6 transitions, epsilon moves, replace and no-op transitions, stack-growing and '
             'non-growing epsilon cycles) x all words <=3 x closure limits {0,1,2,5,40}; verdict compared with the exact '
             'summary-saturation oracle (soundness always; equality when no closure is truncated) and with the Lean model; '
-            'non-trivial = PDA with an epsilon move and a stack operation, word non-empty; distinct by (PDA, word, limit); also PDAs with epsilon loops that push (infinite closures) or pop (drain loops), automata produced by pda_to_accept_on_empty_stack, ambiguous multi-character stack symbols, in-place-edit history; epsilon chains with idle self-loops and back edges whose closure has exactly as many configurations as the limit allows (limits L-1, L, L+1)',
+            'non-trivial = PDA with an epsilon move and a stack operation, word non-empty; distinct by (PDA, word, limit); also PDAs with epsilon loops that push (infinite closures) or pop (drain loops), automata produced by pda_to_accept_on_empty_stack, ambiguous multi-character stack symbols, in-place-edit history; epsilon chains with idle self-loops and back edges whose closure has exactly as many configurations as the limit allows (limits L-1, L, L+1); words of length 10-20 whose acceptance needs an epsilon drain of the whole stack',
     'assumptions': ['PDA.valid (constructor); delta is a dict (unique keys)'],
     'trusted_base': ['Spec: Gamba/Spec/PDA.lean (Move, Run, Accepts, EpsReach)'],
 }
@@ -63,6 +63,10 @@ def cases(ctx):
         P, ws, lims = cyclic_chain_pda(rng)
         if not thorough or ctx.mine(i):
             yield {'P': P, 'words': ws, 'limits': lims}
+    for i in range(10 if not thorough else 100):        # long words: epsilon drain of a stack of 10-20 symbols
+        P, ws = gen.deep_drain_pda(rng)
+        if not thorough or ctx.mine(i):
+            yield {'P': P, 'words': ws, 'limits': [40, 1000], 'no_edit': True}
     for i in range(700 if not thorough else 6000):
         P = gen.ambiguous_stack_pda(rng) if i % 20 == 3 else gen.push_loop_pda(rng) if i % 20 == 11 else \
             gen.pop_loop_pda(rng) if i % 20 == 15 else gen.random_pda(rng)
@@ -143,7 +147,7 @@ def judge(ctx, c, answers):
         GambaTools.pda_epsilon_closure_max_iterations = old
     if enc.canon_pda(P, drop_empty=False) != before:
         ctx.violation('argument-mutated', {'case': c})
-    if c['P']['delta'] and len(c['words']) <= 16:
+    if c['P']['delta'] and len(c['words']) <= 16 and not c.get('no_edit'):
         # history: the same PDA object after a legal in-place edit of its transition table must answer like a fresh equal object
         import copy, random
         r = random.Random(core.digest(c['P']))
